@@ -287,6 +287,7 @@ fn variadic(op: &'static str, tier: Tier) -> Vec<Case> {
         }
     }
     if tier.is_thorough() {
+        combos.push(vec![vec![17], vec![2, 17]]);
         combos.push(vec![vec![17], vec![2, 17], vec![1]]);
         combos.push(vec![vec![3, 33], vec![33]]);
         combos.push(vec![vec![2, 3]; 5]);
